@@ -143,6 +143,27 @@ func elemLoadIndex(v ssa.Value, arr ssa.Value) (ssa.Value, bool) {
 	return ia.Index, true
 }
 
+// slotOf: the slot of arr whose element recv denotes where `at` executes: the
+// slot it has been stored into (when that store dominates `at`: the element
+// was read from its old slot into a local, stored into the new slot, and is
+// then used through the local), otherwise the slot it was loaded from.
+func slotOf(recv ssa.Value, arr ssa.Value, at ssa.Instruction) (idx ssa.Value, storedHere bool, ok bool) {
+	r := Unwrap(recv)
+	if refs := r.Referrers(); refs != nil {
+		for _, ref := range *refs {
+			st, isSt := ref.(*ssa.Store)
+			if !isSt || Unwrap(st.Val) != r {
+				continue
+			}
+			if ia, isIA := st.Addr.(*ssa.IndexAddr); isIA && ia.X == arr && InstrDominates(st, at) {
+				return ia.Index, true, true
+			}
+		}
+	}
+	i, ok := elemLoadIndex(recv, arr)
+	return i, false, ok
+}
+
 func checkMoveFunc(c *Ctx, fn *ssa.Function, fwd bool) {
 	key := ShortName(fn)
 	arr := ssa.Value(fn.Params[0])
@@ -217,10 +238,10 @@ func checkMoveFunc(c *Ctx, fn *ssa.Function, fwd bool) {
 						if arg != ssa.Value(to) {
 							bad = "the moved element gets an index other than `to`"
 						}
-					} else if ridx, ok := elemLoadIndex(x.Call.Value, arr); ok {
+					} else if ridx, stored, ok := slotOf(x.Call.Value, arr, x); ok {
 						if ridx != arg {
 							bad = "setIndex(i) is called on the element of a different slot"
-						} else if !storedBefore(x, arr, arg) {
+						} else if !stored && !storedBefore(x, arr, arg) {
 							bad = "setIndex(i) is applied to slot i before the slot received its new element"
 						}
 					} else {
@@ -230,7 +251,7 @@ func checkMoveFunc(c *Ctx, fn *ssa.Function, fwd bool) {
 					setAddrArgs = append(setAddrArgs, x.Call.Args[0])
 					if x.Call.Value == moved {
 						addrIv = append(addrIv, ival{endpoint{to, 0}, endpoint{to, 0}})
-					} else if ridx, ok := elemLoadIndex(x.Call.Value, arr); ok {
+					} else if ridx, _, ok := slotOf(x.Call.Value, arr, x); ok {
 						iv, ok := indexInterval(ridx)
 						if !ok {
 							bad = "setAddr on a slot that is neither a parameter nor a counting loop variable"
@@ -292,7 +313,7 @@ func checkMoveFunc(c *Ctx, fn *ssa.Function, fwd bool) {
 				}
 			case "End":
 				// End() of the slot that has just got its address
-				idx, ok := elemLoadIndex(call.Call.Value, arr)
+				idx, _, ok := slotOf(call.Call.Value, arr, call)
 				if !ok {
 					chainOK, why = false, "End() is not taken from a slot of arr"
 					continue
@@ -303,7 +324,7 @@ func checkMoveFunc(c *Ctx, fn *ssa.Function, fwd bool) {
 						break
 					}
 					if sc, ok := in.(*ssa.Call); ok && sc.Call.IsInvoke() && sc.Call.Method.Name() == "setAddr" {
-						if ridx, ok := elemLoadIndex(sc.Call.Value, arr); ok && ridx == idx {
+						if ridx, _, ok := slotOf(sc.Call.Value, arr, sc); ok && ridx == idx {
 							prevSet = true
 						}
 					}
@@ -460,31 +481,32 @@ func checkC07(c *Ctx) {
 			argOK = argOK && seen[ssa.Value(cf.Params[0])] && seen[ssa.Value(cf.Params[1])]
 		}
 		c.Oblige("C07.ord", ShortName(cf)+"/validates-from-and-to", c.Prog.FuncPos(cf), argOK, "checkFromToIndex does not validate both from and to against the same length")
-		if argOK {
-			for mask := 0; mask < 4; mask++ {
-				vl := &Valuation{Bool: func(x ssa.Value) (bool, bool) {
-					y, nn, ok := NilCheck(x)
-					if !ok {
-						return false, false
+		// walked concretely together with validateArrayIndex: accepted exactly
+		// when both indices lie in [0, l)
+		for _, from := range []int64{-1, 0, 2, 3} {
+			for _, to := range []int64{-1, 0, 2, 3} {
+				const l = 3
+				var vl *Valuation
+				vl = &Valuation{Enter: SamePackage(cf), Int: func(x ssa.Value) (int64, bool) {
+					switch vl.Root(x) {
+					case ssa.Value(cf.Params[0]):
+						return from, true
+					case ssa.Value(cf.Params[1]):
+						return to, true
+					case ssa.Value(cf.Params[2]):
+						return l, true
 					}
-					for i, call := range calls {
-						if y == ssa.Value(call) {
-							isErr := mask>>uint(i)&1 == 1
-							return isErr == nn, true
-						}
-					}
-					return false, false
+					return 0, false
 				}}
 				res := vl.Walk(cf.Blocks[0], nil)
-				ret, isRet := res.End.(*ssa.Return)
-				key := fmt.Sprintf("%s/errs(%02b)", ShortName(cf), mask)
-				if !res.OK || !isRet {
+				key := fmt.Sprintf("%s/indices(from=%d,to=%d,l=%d)", ShortName(cf), from, to, l)
+				isNil, known := res.RetNil[0]
+				if _, isRet := res.End.(*ssa.Return); !res.OK || !isRet || !known {
 					c.Fail("C07.ord", key, c.Prog.FuncPos(cf), "decision not computable: "+res.Why)
 					continue
 				}
-				accepted := IsNilConst(ret.Results[0])
-				// with the first failing the second may not be evaluated: ok
-				c.Oblige("C07.ord", key, c.Prog.Pos(ret.Pos()), accepted == (mask == 0), "accepts although an index is invalid, or rejects valid indices")
+				want := from >= 0 && from < l && to >= 0 && to < l
+				c.Oblige("C07.ord", key, c.Prog.FuncPos(cf), isNil == want, "accepts although an index is invalid, or rejects valid indices")
 			}
 		}
 	}
